@@ -12,6 +12,7 @@
 -/
 import GV.Eval.ValThm
 import GV.Eval.LowerThm
+import GV.Eval.FactsParams
 namespace GV.Props.C01
 open GV.Eval
 
@@ -35,6 +36,26 @@ theorem C01_expression (P : Params) (env : Env) (e : RE) (hw : e.WF = true) :
 
 theorem C01_math (P : Params) (env : Env) (e : RE) (hm : e.isMath = true) (hw : e.WF = true) :
     evalMath P env (lowerM e) = denote P env false e := lowerM_correct P env e hm hw
+
+/-- **End to end.** On every well-kinded environment the meaning of a well-formed expression
+    with the CODE's arithmetic and comparison and with the REFERENCE primitives agree: same
+    environment afterwards, same value — or both fail (never a value on one side only). -/
+theorem C01_end_to_end (P : Params) (ha : P.arith = goArith) (hc : P.cmp = goCmp) (e : RE) (hl : e.LitWK = true)
+    (env : Env) (x : Bool) (he : EnvWK env) :
+    SimGood (denote P env x e) (denote { P with arith := refArith, cmp := refCmp } env x e) :=
+  denote_sim P _ (rel_go_ref P ha hc) e hl env x he
+
+/-- … hence the interpreter on the listener's AST shape computes the reference value -/
+theorem C01_interpreter_reference (P : Params) (ha : P.arith = goArith) (hc : P.cmp = goCmp) (e : RE)
+    (hw : e.WF = true) (hl : e.LitWK = true) (env : Env) (he : EnvWK env) :
+    SimGood (evalExpr P env (lowerX e)) (denote { P with arith := refArith, cmp := refCmp } env true e) := by
+  rw [lowerX_correct P env e hw]
+  exact C01_end_to_end P ha hc e hl env true he
+
+/-- every value the data layer hands to the primitives is well kinded (what `C01_arith` and
+    `C01_cmp` ask of their operands) -/
+theorem C01_operands_well_kinded (env : Env) (he : EnvWK env) (n : String) (v : Val) (h : getValue env n = .ok v) :
+    v.WK = true := getValue_wk env he n v h
 
 /-! Clauses of the statement, read off the reference semantics. -/
 
